@@ -2,9 +2,13 @@
 
 Theorems: lean/PersimVerif/Props/C15.lean (model lean/PersimVerif/Model/Sliced.lean at the reals / an ordered field).
 Tie: `persim.sliced_wasserstein.sliced_wasserstein` vs the same model executed at Float (driver op `sw`) with the
-     SAME float32 direction vectors the code builds (computed here exactly as the code does and sent as rationals).
-[T]: the laws of the statement evaluated directly on the real code (rounding and the float32 direction / diag_theta
-     vectors are outside every theorem): symmetry, reorderings, diagonal points, translation, scaling, triangle, `<= 2*W1`.
+     SAME float64 direction vectors the code builds (computed here exactly as the code does and sent as rationals;
+     float64 since /repo e37e244), to 1e-12 of the coordinate scale (observed 2e-16).
+[T]: the laws of the statement evaluated directly on the real code (rounding is outside every theorem): symmetry,
+     reorderings, diagonal points, translation (also by offsets up to 1e6 x the feature size, both signs), scaling,
+     triangle, `<= 2*W1`; integer and float32 arrays of the same numbers.  The translation / diagonal-point tolerances are
+     float64 rounding of the coordinates involved (1e-14 * sum|coordinates|, observed 1.3e-16), not a fraction of the
+     coordinate scale: the float32 directions of the pre-fix code moved the value by 1.5e-8 of the coordinate scale.
 """
 import itertools
 import math
@@ -19,18 +23,27 @@ PROP_FILES = ["PersimVerif/Props/C15.lean", py2lean.prop_file("sliced")]
 RULE = ("pairs/triples of diagrams from one PRNG: sizes 0-8 (thorough 0-20), coordinates from lattice/half/dyadic/decimal/"
         "uniform modes (scales 2^-20..2^20), duplicates, diagonal points, then with prob 1/2 shifted along the diagonal or "
         "reflected so that coordinates of either sign occur; kinds random / reordered-equal / nearly-equal / one or both empty; "
+        "with prob 0.15 moved far from the origin (offset +-10^U(2,6) x the largest coordinate, features unchanged); "
         "M in {1,2,3,10,50} (thorough also random M<=64); non-trivial = both diagrams non-empty and not reorderings of each "
-        "other; distinct by digest of (PD1, PD2, M)")
+        "other; distinct by digest of (PD1, PD2, M); laws: translations by +-10^U(0,6) x the coordinate span and diagonal "
+        "points that far out; a representation stream with int8/uint8/int32/int64/float32 arrays")
 ASSUMPTIONS = [
     "inputs are float64 arrays of shape (n,2), n >= 0 (the routine reads PD.shape), with finite entries; M is a positive int",
-    "np.cos/np.sin/float32 rounding are not modelled: the direction vectors are computed by the harness with the code's own "
-    "expressions (theta accumulated from 0.5 in steps 1.0/M, cast to float32) and passed to the model; the theorems hold for "
+    "np.cos/np.sin rounding is not modelled: the direction vectors are computed by the harness with the code's own "
+    "expressions (theta accumulated from 0.5 in steps 1.0/M, float64) and passed to the model; the theorems hold for "
     "every list of directions",
-    "np.dot/sorted/scipy cityblock agree with the model's Float arithmetic to 1e-6 relative to the coordinate scale (compared on every case)",
-    "theorems are exact-arithmetic with the exact diagonal projection (c*c = 1/2); the code's float32 diag_theta makes the "
-    "projection inexact by ~4e-8 relative, which the [T] tolerances (1e-6 of the coordinate scale) absorb",
+    "np.dot/sorted/scipy cityblock agree with the model's Float arithmetic to 1e-12 relative to the coordinate scale (compared on "
+    "every case; observed 2e-16)",
+    "theorems are exact-arithmetic with the exact diagonal projection (c*c = 1/2); the code's float64 diag_theta makes the "
+    "projection inexact by one rounding (1e-16 relative), inside the [T] tolerances (1e-14 of the sum of the coordinates involved)",
 ]
-TOL = 1e-6            # DESIGN.md: 1e-6 relative (float32 directions)
+TOL = 1e-12           # code vs model at Float with the same float64 directions, relative to the coordinate scale
+RND = 1e-14           # [T] laws: float64 rounding of the coordinates involved (observed 1.3e-16 * sum|coordinates|)
+# theorems that carry a clause of the statement (helpers, concrete instances and rfl restatements such as sliceCost_eq,
+# slice_lengths, the generic swWith_* forms and sw_ok_iff are not in this list)
+CORE_THEOREMS = ["sw_eq_average", "sorted_l1_is_ot", "sw_symm", "sw_perm", "sw_self_perm", "sw_nonneg", "sw_triangle", "sw_scale",
+                 "sw_translate_diag", "sw_ignores_diagonal", "sw_ignores_diagonal_right", "sw_ignores_diagonal_filter",
+                 "sw_le_two_w1", "sw_le_two_w1_min"]
 MS = [1, 2, 3, 10, 50]
 EXPECTED_DIGEST = None   # filled lazily into the evidence; a changed digest only raises the budget
 
@@ -47,24 +60,27 @@ def arr(d):
     return np.array(d, dtype=float).reshape(-1, 2)
 
 
-def dirs32(M):
-    """the direction vectors exactly as the code computes them"""
+def dirs64(M):
+    """the direction vectors exactly as the code computes them (float64 since /repo e37e244)"""
     out, theta, step = [], 0.5, 1.0 / M
     for _ in range(M):
-        l = np.array([np.cos(theta * np.pi), np.sin(theta * np.pi)], dtype=np.float32)
+        l = np.array([np.cos(theta * np.pi), np.sin(theta * np.pi)])
         out.append([float(l[0]), float(l[1])])
         theta += step
     return out
 
 
-def diag32():
-    d = np.array([np.cos(0.25 * np.pi), np.sin(0.25 * np.pi)], dtype=np.float32)
+def diag64():
+    d = np.array([np.cos(0.25 * np.pi), np.sin(0.25 * np.pi)])
     return [float(d[0]), float(d[1])]
 
 
-def code_sw(A, B, M):
+def code_sw(A, B, M, dtype=None):
     with np.errstate(all="ignore"):
-        st, v, _ = call(S().sliced_wasserstein, arr(A), arr(B), M)
+        if dtype is None:
+            st, v, _ = call(S().sliced_wasserstein, arr(A), arr(B), M)
+        else:
+            st, v, _ = call(S().sliced_wasserstein, np.array(A, dtype=dtype).reshape(-1, 2), np.array(B, dtype=dtype).reshape(-1, 2), M)
     return ("err:" + v) if st == "err" else float(v)
 
 
@@ -94,7 +110,7 @@ def scale_of(*dgms):
     return math.fsum(abs(x) for d in dgms for p in d for x in p)
 
 
-STATS = {"w1_reference_persim": 0, "w1_reference_own": 0}
+STATS = {"w1_reference_persim": 0, "w1_reference_own_persim_within_rotation_rounding": 0, "w1_reference_own": 0}
 
 
 def w1_persim(A, B):
@@ -122,12 +138,19 @@ def w1_own(A, B):
 
 
 def w1(A, B):
-    """reference W1: persim's wasserstein where it is accurate (it loses small distances at large coordinates through
-    sklearn's expanded |x|^2+|y|^2-2xy, and is only meant for points with death >= birth), else the difference-based value"""
+    """reference W1; returns (value, which).  `persim.wasserstein` is difference-based since /repo 6c9bac1 (no longer
+    sklearn's expanded |x|^2+|y|^2-2xy) and is the reference at every scale for diagrams with death >= birth, up to the
+    rounding of its 45-degree rotation onto the diagonal (<= 4.5e-16 * sum|coordinates|, measured); where W1 itself is that
+    small the difference-based value is used and the agreement up to that rounding is counted (the generator's shifted /
+    reflected diagrams keep death >= birth; wasserstein's signed diagonal cost (d-b)/sqrt2 would not apply otherwise).
+    A disagreement beyond the rounding would make `own` the reference and is counted separately (0 on the current tree)."""
     own, per = w1_own(A, B), w1_persim(A, B)
     if abs(own - per) <= 1e-9 * abs(own) + 1e-300:
         STATS["w1_reference_persim"] += 1
         return per, "persim"
+    if abs(own - per) <= 2e-15 * scale_of(A, B):
+        STATS["w1_reference_own_persim_within_rotation_rounding"] += 1
+        return own, "own (persim agrees up to the rounding of its rotation)"
     STATS["w1_reference_own"] += 1
     return own, "own"
 
@@ -172,7 +195,17 @@ def gen_pair(ctx, nmax):
     else:
         B = gen_dgm(ctx, nmax)
     (A, B), how = resign(ctx, [A, B])
+    if r.random() < 0.15:
+        (A, B), how = far(ctx, [A, B]), how + "+far"
     return A, B, kind + "/" + how
+
+
+def far(ctx, dgms):
+    """move the diagrams far from the origin: offset +-10^U(2,6) x the largest coordinate, features unchanged"""
+    r = ctx.rng
+    sc = max([1.0] + [abs(x) for d in dgms for p in d for x in p])
+    t = r.choice([-1.0, 1.0]) * 10.0 ** r.uniform(2, 6) * sc
+    return [[[p[0] + t, p[1] + t] for p in d] for d in dgms]
 
 
 def is_perm(A, B):
@@ -187,7 +220,7 @@ def eval_case(c):
     A, B, M = c["A"], c["B"], c["M"]
     if k == "spec":
         code, spec = code_sw(A, B, M), spec_sw(A, B, M)
-        tol = 2 * TOL * scale_of(A, B) + 1e-300
+        tol = RND * scale_of(A, B) + 1e-300
         ok = not isinstance(code, str) and math.isfinite(code) and abs(code - spec) <= tol
         return ok, {"code": code, "definition": spec, "tol": tol}
     v = code_sw(A, B, M)
@@ -209,12 +242,12 @@ def eval_case(c):
         A2, B2 = c["A2"], c["B2"]
         sc2 = scale_of(A2, B2) + 1e-300
         w = code_sw(A2, B2, M)
-        return (not isinstance(w, str)) and abs(v - w) <= TOL * sc2, {"sw": v, "with diagonal points": w, "tol": TOL * sc2}
+        return (not isinstance(w, str)) and abs(v - w) <= RND * sc2, {"sw": v, "with diagonal points": w, "tol": RND * sc2}
     if k == "translate":
         t = c["t"]
         A2 = [[p[0] + t, p[1] + t] for p in A]
         B2 = [[p[0] + t, p[1] + t] for p in B]
-        tol = TOL * (sc + abs(t) * (len(A) + len(B)))
+        tol = RND * (sc + scale_of(A2, B2))
         w = code_sw(A2, B2, M)
         return (not isinstance(w, str)) and abs(v - w) <= tol, {"sw": v, "translated": w, "tol": tol}
     if k == "scale":
@@ -226,12 +259,15 @@ def eval_case(c):
         x, y = code_sw(A, C, M), code_sw(C, B, M)
         if isinstance(x, str) or isinstance(y, str):
             return False, {"sw(A,C)": x, "sw(C,B)": y}
-        slack = TOL * (scale_of(A, B, C) + 1e-300)
+        slack = RND * (scale_of(A, B, C) + 1e-300)
         return v <= x + y + slack, {"sw(A,B)": v, "sw(A,C)": x, "sw(C,B)": y, "slack": slack}
     if k == "w1":
         w, which = w1(A, B)
-        slack = TOL * sc + 1e-9 * abs(w)
+        slack = RND * sc + 1e-9 * abs(w)
         return v <= 2.0 * w + slack, {"sw": v, "2*W1": 2.0 * w, "W1 reference": which, "slack": slack}
+    if k == "representation":
+        w = code_sw(A, B, M, dtype=c["dtype"])
+        return (not isinstance(w, str)) and abs(v - w) <= RND * sc, {"sw(float64 arrays)": v, "sw(%s arrays)" % c["dtype"]: w, "tol": RND * sc}
     raise common.HarnessError("unknown case kind %r" % k)
 
 
@@ -248,11 +284,13 @@ def laws_for(ctx, A, B, C, M):
     def with_diag(D):
         D2 = [list(p) for p in D]
         for _ in range(r.randint(1, 3)):
-            a = r.choice([-3.0, -0.5 * sc, -sc, 0.0, 0.25 * sc, sc, float(r.randint(-9, 9)), r.uniform(-sc, sc)])
+            a = r.choice([-3.0, -0.5 * sc, -sc, 0.0, 0.25 * sc, sc, float(r.randint(-9, 9)), r.uniform(-sc, sc),
+                          1e6 * sc, -1e6 * sc, r.choice([-1.0, 1.0]) * 10.0 ** r.uniform(0, 6) * sc])
             D2.insert(r.randint(0, len(D2)), [a, a])
         return D2
     out.append(dict(base, kind="diag", A2=with_diag(A), B2=with_diag(B) if r.random() < 0.7 else [list(p) for p in B]))
-    t = r.choice([-5.0, -1.0, -sc, -2.0 * sc, -100.0 * sc, sc, 0.5, float(-r.randint(1, 20)), r.uniform(-3 * sc, sc)])
+    t = r.choice([-5.0, -1.0, -sc, -2.0 * sc, -100.0 * sc, sc, 0.5, float(-r.randint(1, 20)), r.uniform(-3 * sc, sc),
+                  1e6 * sc, -1e6 * sc, r.choice([-1.0, 1.0]) * 10.0 ** r.uniform(0, 6) * sc])
     out.append(dict(base, kind="translate", t=t))
     out.append(dict(base, kind="scale", lam=r.choice([0.25, 0.5, 2.0, 3.0, 1024.0, 0.1, 7.3, 1e-3, 1e3])))
     out.append(dict(base, kind="triangle", C=C))
@@ -267,17 +305,23 @@ def fail(ctx, what, case, info, **more):
 def search_failing_input(ctx, A, B, M, op, line, code, model):
     """correspondence broke on (A,B,M): is the *property* violated on the real code?  definition first, then every law"""
     spec_case = {"kind": "spec", "A": A, "B": B, "M": M}
+    # the laws first, with the most telling instances up front (a far diagonal point, a far translation: what float32
+    # direction vectors break), then the comparison with the definition
+    sc = max([1.0] + [abs(x) for d in (A, B) for p in d for x in p])
+    base = {"A": A, "B": B, "M": M}
+    first = [dict(base, kind="diag", A2=[list(p) for p in A] + [[1e6 * sc, 1e6 * sc]], B2=[list(p) for p in B]),
+             dict(base, kind="translate", t=1e6 * sc), dict(base, kind="translate", t=-1e6 * sc)]
+    C = gen_dgm(ctx, 6)
+    for lc in first + laws_for(ctx, A, B, C, M):
+        ok, info = eval_case(lc)
+        if not ok:
+            fail(ctx, "sliced Wasserstein law `%s` fails on the real code" % lc["kind"], lc, info, correspondence=op, model=model)
+            return True
     ok, info = eval_case(spec_case)
     if not ok:
         fail(ctx, "sliced_wasserstein differs from the definition (average over the M directions of the 1-D transport cost)",
              spec_case, info, correspondence=op, model=model)
         return True
-    C = gen_dgm(ctx, 6)
-    for lc in laws_for(ctx, A, B, C, M):
-        ok, info = eval_case(lc)
-        if not ok:
-            fail(ctx, "sliced Wasserstein law `%s` fails on the real code" % lc["kind"], lc, info, correspondence=op, model=model)
-            return True
     ctx.violation("code and model of sliced_wasserstein differ but the definition and all laws hold on this input: code=%r model=%r"
                   % (code, model), {"correspondence": op, "line": line[:2000], "code": code, "model": model,
                                     "A": A, "B": B, "M": M}, found_input=False)
@@ -296,7 +340,7 @@ def run(ctx):
     r = ctx.rng
     ctx.extra["source_digest"] = {"persim/sliced_wasserstein.py": common.source_digest("persim/sliced_wasserstein.py", ["sliced_wasserstein"])}
     nmax = 20 if ctx.thorough else 8
-    dd, s2 = diag32(), float(np.sqrt(2.0))
+    dd, s2 = diag64(), float(np.sqrt(2.0))
     corpus = [
         ([], [], 1), ([], [], 50), ([[0.5, 1.0]], [[0.5, 1.1]], 50), ([[0.5, 1.0], [0.6, 1.1]], [[0.6, 1.2]], 50),
         ([[-3.0, -3.0]], [], 1),                                            # the pre-fix failure: a negative diagonal point
@@ -314,7 +358,7 @@ def run(ctx):
             A, B, kind = gen_pair(ctx, nmax)
             M = r.choice(MS) if (not ctx.thorough or r.random() < 0.7) else r.randint(1, 64)
         if M not in dcache:
-            dcache[M] = enc(dirs32(M))
+            dcache[M] = enc(dirs64(M))
         cases.append((A, B, M, kind))
         lines.append("sw %s %s %s %s %s" % (enc(A), enc(B), dcache[M], enc(dd), enc(s2)))
     # M = 0 is rejected by code and model alike
@@ -354,7 +398,38 @@ def run(ctx):
                 return
     ctx.extra["max_code_model_discrepancy_rel_scale"] = worst
     ctx.extra["branch_hits"] = cov.summary()
+    ctx.extra["core_theorems"] = CORE_THEOREMS
+    representations(ctx)
+    if len(ctx.violations) > 5:
+        return
     laws(ctx, nmax)
+
+
+def representations(ctx):
+    """[T] the same numbers stored as integer / float32 arrays (np.dot against the float64 direction vectors promotes to
+    float64, so the value must be the float64 call's), also far from the origin"""
+    r = ctx.rng
+    for i in range(ctx.n(200, 2000)):
+        dtype = ["int8", "uint8", "int32", "int64", "float32"][i % 5]
+        lo, hi = {"int8": (-100, 90), "uint8": (0, 220), "int32": (-10**6, 10**6), "int64": (-10**6, 10**6), "float32": (-2**20, 2**20)}[dtype]
+        off = 0 if dtype in ("int8", "uint8") or r.random() < 0.5 else r.randint(lo, hi - 40)
+
+        def dgm():
+            out = []
+            for _ in range(r.randint(0, 5)):
+                b = (r.randint(lo, hi - 30) if dtype in ("int8", "uint8") else off + r.randint(0, 10))
+                out.append([float(b), float(b + r.randint(0, 25))])
+            return out
+        A, B, M = dgm(), dgm(), r.choice(MS)
+        c = {"kind": "representation", "A": A, "B": B, "M": M, "dtype": dtype}
+        ok, info = eval_case(c)
+        ctx.case({"op": "representation", "PD1": A, "PD2": B, "M": M, "dtype": dtype}, bool(A) and bool(B), sample_every=41)
+        ctx.count("representation:" + dtype)
+        ctx.test("representation", ok)
+        if not ok:
+            fail(ctx, "sliced_wasserstein depends on the dtype (%s) the same numbers are stored in" % dtype, c, info, law=True)
+            if len(ctx.violations) > 5:
+                return
 
 
 def laws(ctx, nmax):
@@ -396,7 +471,9 @@ def replay(ctx, rep):
 
 
 MANIFEST = {
-    "text": "Proof: Lean theorems about the model of sliced_wasserstein over the reals, for diagrams of every size, coordinates of "
+    "text": "Proof: 28 Lean theorems (14 of them core: each a clause of the statement about the value; the others are generic swWith_* "
+            "steps, helpers, rfl restatements such as sliceCost_eq / slice_lengths and two counterexamples for the old projection) "
+            "about the model of sliced_wasserstein over the reals, for diagrams of every size, coordinates of "
             "either sign and every list of M >= 1 directions: the value is the average over the directions of the sorted L1 cost of "
             "the two augmented projected lists, and that cost is the minimum over all bijections (1-D optimal transport); symmetry; "
             "invariance under reordering (zero between reorderings); invariance under translation along the diagonal for either sign "
@@ -404,13 +481,18 @@ MANIFEST = {
             "points project to themselves and are ignored wherever they stand. Beyond the design's plan the remaining clauses are "
             "proved too: the triangle inequality of the augmented construction, and for unit directions sw <= 2*W1 against every "
             "partial matching (Euclidean ground metric). The model is tied to the code on every run by executing it at Float with the "
-            "code's own float32 direction vectors (1e-6 of the coordinate scale), against an independent definition (exhaustive over "
-            "bijections for <= 6 points), and all laws are evaluated on the real code as tests.",
-    "note": "Trusted: Lean kernel + Mathlib, axioms propext/Classical.choice/Quot.sound; the correspondence harness; numpy cos/sin/"
-            "float32 casts (directions are computed by the harness with the code's expressions and passed in; the theorems hold for "
+            "code's own float64 direction vectors (1e-12 of the coordinate scale; observed 2e-16), against an independent definition "
+            "(exhaustive over bijections for <= 6 points), and all laws are evaluated on the real code as tests, including "
+            "translations and diagonal points at offsets up to 1e6 x the feature size (both signs) and integer / float32 arrays, with "
+            "tolerances of float64 rounding of the coordinates involved (1e-14 * sum|coordinates|).",
+    "note": "Trusted: Lean kernel + Mathlib, axioms propext/Classical.choice/Quot.sound; the correspondence harness; numpy cos/sin "
+            "(directions are computed by the harness with the code's expressions and passed in; the theorems hold for "
             "every direction list, the W1 bound for unit directions); np.dot, sorted, scipy cityblock as exact dot product / sort / L1 "
-            "up to rounding. Theorems are exact-arithmetic with the exact projection onto the diagonal; the code's float32 diag_theta "
-            "makes it inexact by ~4e-8 relative, covered only by the [T] streams (tolerance 1e-6 of the coordinate scale).",
+            "up to rounding. Theorems are exact-arithmetic with the exact projection onto the diagonal. The direction vectors are "
+            "float64 since /repo e37e244 (the earlier float32 vectors moved the value by 1.5e-8 of the coordinate scale: 0.0154 for "
+            "a diagonal point at (1e6,1e6)); that caveat is gone and a return of it is caught by the [T] laws at large offsets. "
+            "W1 reference: persim.wasserstein (difference-based since 6c9bac1), an independent difference-based W1 where W1 is below "
+            "the rounding of wasserstein's rotation.",
     "technique": "Lean 4 theorems over a hand-written model + differential correspondence with the real code + metamorphic tests",
 }
 MANIFEST["note"] += " " + py2lean.manifest_note("sliced")
